@@ -133,7 +133,8 @@ def _keep():
 def _scope(depth):
     levels = ["same", "same", "core", "assembly", "block", "block", "component", "excore"] + (["reactor", "reactor"] if depth == 1 else [])
     return st.fixed_dictionaries(
-        {"scope": st.sampled_from(levels), "obj": st.integers(0, 10**6), "keep": _keep(), "inherit": st.booleans(), "body": _body(depth)}
+        {"scope": st.sampled_from(levels), "obj": st.integers(0, 10**6), "keep": _keep(), "inherit": st.booleans(),
+         "keepnd": st.sampled_from([False, False, True]), "body": _body(depth)}
     )
 
 
@@ -365,6 +366,9 @@ class Interp:
         self.max_depth = 0
         self.nontrivial = False
         self.copies = []  # probes are kept alive until the end of the case
+        self.touched = set()  # objects some operation assigned a parameter of
+        self.inplace_only = set()  # components whose only change so far is an in-place edit of kept densities: later
+        #                            operations go elsewhere when they can (see op_keptassign)
         self.seen_serials = set(_serials(snapshot(root)))
 
     # ---- helpers -----------------------------------------------------------------------------
@@ -400,6 +404,8 @@ class Interp:
         cand = [i for i in self.subtree(base) if (level == "any" or self.level[i] == level) and (pred is None or pred(self.objs[i]))]
         if not cand:
             return None
+        if self.inplace_only:
+            cand = [i for i in cand if i not in self.inplace_only] or cand
         return cand[idx % len(cand)]
 
     def table(self, i):
@@ -473,6 +479,7 @@ class Interp:
                 else:
                     self.shape_trigger.add(name)
         o.p[name] = value
+        self.touched.add(i)
         self.counts["assign:" + kind] += 1
         if value is None:
             self.counts["assign:None"] += 1
@@ -522,7 +529,7 @@ class Interp:
         targets = []
         for f in self.frames:
             for d in f.defs:
-                targets.append((f, d))
+                targets.extend([(f, d)] * (3 if d.name == "numberDensities" else 1))
         if not targets:
             return self.op_param(op, base)
         f, d = targets[op["pidx"] % len(targets)]
@@ -539,6 +546,22 @@ class Interp:
         cand = inner or cand
         if not cand:
             return self.op_param(op, base)
+        if d.name == "numberDensities" and op["n"] % 3 != 0:
+            # kept compositions edited through the in-place path (updateNumberDensities without wipe): nothing is assigned, the
+            # method itself has to flag the collection as changed since the backup
+            dense = [i for i in cand if len(self.objs[i].p.numberDensities) > 0 and i not in self.touched]
+            if dense:
+                i = dense[op["obj"] % len(dense)]
+                c = self.objs[i]
+                nucs = sorted(c.p.numberDensities)
+                nuc = nucs[op["obj2"] % len(nucs)]
+                if op["n"] % 2:
+                    c.setNumberDensity(nuc, c.getNumberDensity(nuc) * (0.5 + op["factor"]))
+                else:
+                    c.updateNumberDensities({nuc: c.getNumberDensity(nuc) * (0.5 + op["factor"])})
+                self.counts["kept-ndens-inplace-only"] += 1
+                self.inplace_only.add(i)
+                return self._kept_note(i, "numberDensities")
         i = cand[op["obj"] % len(cand)]
         kinds = dict(TABLES[self.level[i]])
         if d.name not in kinds:
@@ -584,6 +607,7 @@ class Interp:
         nucs = sorted(c.p.numberDensities)
         nuc = nucs[op["obj2"] % len(nucs)]
         c.setNumberDensity(nuc, c.getNumberDensity(nuc) * op["factor"])
+        self.touched.add(i)
         self.counts["ndens"] += 1
         self._kept_note(i, "numberDensities")
 
@@ -592,6 +616,7 @@ class Interp:
         if i is None:
             return
         self.objs[i].setTemperature(op["T"])
+        self.touched.add(i)
         self.counts["temp"] += 1
         self._kept_note(i, "temperatureInC")
 
@@ -654,6 +679,7 @@ class Interp:
             return
         d = dims[op["obj2"] % len(dims)]
         c.setDimension(d, c.p[d] * (1.0 - 0.01 * (1 + op["n"] % 3)))
+        self.touched.add(i)
         self.counts["dim"] += 1
 
     def op_cache(self, op, base):
@@ -802,6 +828,14 @@ class Interp:
             # a nested scope that also keeps what its enclosing scope keeps
             defs += [d for d in self.frames[-1].defs if not any(d is x for x in defs)]
             self.counts["keep-inherited"] += 1
+        if item.get("keepnd"):
+            # the scope also keeps the component compositions (changed in place by setNumberDensity, see op_keptassign)
+            holder = self.pick("component", item["obj"], idx)
+            if holder is not None:
+                d = self.objs[holder].p.paramDefs["numberDensities"]
+                if not any(d is x for x in defs):
+                    defs.append(d)
+                self.counts["keep-numberDensities"] += 1
         frame = Frame(idx, defs, depth)
         frame.grids = {id(self.objs[i].spatialGrid): self.grid_state(self.objs[i]) for i in self.subtree(idx)
                        if self.objs[i].spatialGrid is not None}
@@ -954,8 +988,30 @@ def copies_strategy(tier):
             "enabled": _enabled(COPY_KINDS),
             "pre": st.lists(_op(), max_size=6),
             "steps": st.lists(step, min_size=1, max_size=4),
+            # optional: the freshly built reactor is written to a real database; after 1..n copy steps it is loaded back in this
+            # session (the loaded reactor joins the live trees) and an assembly of it is deep-copied at once
+            "db": st.one_of(st.none(), st.none(), st.integers(0, 10**6)),
         }
     )
+
+
+def _load(db, cs, bp, trees, kinds, seen, out, enabled, case, do_step):
+    """Load the stored reactor back in this session; it joins the live trees.  Its objects carry the stored serial numbers (those
+    of the original, which is still alive: the documented meaning of a load), so they are exempt from the uniqueness pool, but
+    every deep copy made from now on must avoid them and all other live serial numbers."""
+    from vp.model import observe as ob
+
+    before_all = [snapshot(t.root) for t in trees]
+    loaded = db.load(0, 0, cs=cs, bp=bp)
+    for k, (t, b) in enumerate(zip(trees, before_all)):
+        for x in ob.diff(b, snapshot(t.root), limit=2):
+            out.fail("copies/database-load-changes-live-object", "loading the stored reactor changed tree %d (%s): %s" % (k, kinds[k], x))
+    t2 = Interp(loaded, out, enabled, case, prefix="copies")
+    seen.update(s for s in _serials(snapshot(loaded)) if s is not None)
+    trees.append(t2)
+    kinds.append("loaded")
+    # at once: a deep copy of an assembly of the loaded reactor (and the usual checks on it)
+    do_step({"how": "deepcopy", "proto": 2, "src": len(trees) - 1, "level": "assembly", "obj": case["db"], "side": "copy", "mutate": []})
 
 
 def copies_execute(case):
@@ -967,6 +1023,21 @@ def copies_execute(case):
     out = Out()
     cs, bp, r = rg.build(case["spec"])
     enabled = case["enabled"]
+    db = None
+    fn = "c16_%d.h5" % os.getpid()  # relative: lives in the per-process scratch directory
+    steps = list(case["steps"])
+    load_at = None
+    if case.get("db") is not None:
+        from armi.bookkeeping.db.database import Database
+
+        if os.path.exists(fn):
+            os.remove(fn)
+        db = Database(fn, "w")
+        db.open()
+        db.writeToDB(r)
+        load_at = 1 + case["db"] % len(steps)  # at least one copy step lies between the write and the load ...
+        steps[0] = dict(steps[0], how="deepcopy")  # ... and the first of them is a deep copy that stays alive
+        out.label("db:write-copy-load-copy")
     first = Interp(r, out, enabled, case, prefix="copies")
     for op in case["pre"]:
         first.apply(op)
@@ -974,7 +1045,8 @@ def copies_execute(case):
     kinds = ["original"]
     seen = set(_serials(snapshot(r)))
     levels = set()
-    for step in case["steps"]:
+
+    def do_step(step):
         src = trees[step["src"] % len(trees)]
         i = src.pick(step["level"], step["obj"], 0)
         if i is None:
@@ -988,7 +1060,7 @@ def copies_execute(case):
             o2 = pickle.loads(pickle.dumps(o, step["proto"]))
         levels.add(src.level[i])
         out.label("copy:%s:%s" % (how, src.level[i]), "of:" + kinds[step["src"] % len(trees)])
-        what = "%s of %s %r (tree %d)" % (how, src.level[i], o.name, step["src"] % len(trees))
+        what = "%s of %s %r (tree %d, %s)" % (how, src.level[i], o.name, step["src"] % len(trees), kinds[step["src"] % len(trees)])
         src_before = before_all[step["src"] % len(trees)][i : i + src.size[i]]
         new = snapshot(o2)
         for x in ob.diff(_values_view(src_before), _values_view(new), limit=3):
@@ -1002,7 +1074,8 @@ def copies_execute(case):
                 out.fail("copies/serial-duplicated-inside-copy", "%s: %r" % (what, sorted(ser)))
             shared = sorted(set(ser) & seen)
             if shared:
-                out.fail("copies/serial-reused", "%s: serial numbers %r already belong to live objects" % (what, shared[:6]))
+                out.fail("copies/serial-reused" + ("-after-database-load" if "loaded" in kinds else ""),
+                         "%s: serial numbers %r already belong to live objects (trees: %s)" % (what, shared[:6], kinds))
         else:
             out.label("pickle-serial:" + ("same-as-source" if ser == _serials(src_before) else "different"))
         seen.update(ser)
@@ -1024,10 +1097,24 @@ def copies_execute(case):
                 out.fail("copies/not-independent/" + _bucket(x)[0].replace("-not-restored", "").replace("-changed", ""),
                          "after %s, changing tree %d (%s) also changed tree %d (%s): %s"
                          % (what, trees.index(side), kinds[trees.index(side)], k, kinds[k], x))
+
+    try:
+        for n, step in enumerate(steps):
+            if n == load_at:
+                load_at = None
+                _load(db, cs, bp, trees, kinds, seen, out, enabled, case, do_step)
+            do_step(step)
+        if load_at is not None:
+            _load(db, cs, bp, trees, kinds, seen, out, enabled, case, do_step)
+    finally:
+        if db is not None:
+            db.close(True)
+            if os.path.exists(fn):
+                os.remove(fn)
     # uniqueness over the original and all deep copies
     pool = {}
     for k, t in enumerate(trees):
-        if kinds[k] == "pickle":
+        if kinds[k] in ("pickle", "loaded"):  # these legitimately carry the serial numbers of their source / stored original
             continue
         for s in _serials(snapshot(t.root)):
             if s in pool and pool[s] != k:
